@@ -56,10 +56,13 @@ static uint8_t *backing(size_t claimed, uint8_t seed) {
 static struct aws_byte_buf mkbuf(const char *name, uint8_t seed, struct aws_allocator *alloc) {
     char k[64];
     struct aws_byte_buf b;
+    char k2[64];
     snprintf(k, sizeof k, "%s.capacity", name);
-    b.capacity = get(k, 16);
+    snprintf(k2, sizeof k2, "r_%s_capacity", name);
+    b.capacity = get2(k, k2, 16);
     snprintf(k, sizeof k, "%s.len", name);
-    b.len = get(k, 8);
+    snprintf(k2, sizeof k2, "r_%s_len", name);
+    b.len = get2(k, k2, 8);
     if (b.len > b.capacity) { printf("input not constructible: len > capacity\n"); exit(3); }
     b.allocator = alloc;
     if (alloc) {
@@ -200,12 +203,12 @@ int main(int argc, char **argv) {
         if (r && !strcmp(op, "cursor_read_be32") && v32 != (((uint32_t)old.ptr[0] << 24) | ((uint32_t)old.ptr[1] << 16) | ((uint32_t)old.ptr[2] << 8) | old.ptr[3])) FAIL("be32 value wrong");
         if (r && big && n && memcmp(big, old.ptr, real(n))) FAIL("bytes read differ from the source");
     } else if (!strncmp(op, "append_dynamic", 14) || !strcmp(op, "s_append_dynamic") || !strcmp(op, "s_append_dynamic_aliased")) {
-        int secure = strstr(op, "secure") != NULL || get2("arg.clear_released_memory", "arg.clear_released_memory_wrapper", 0);
+        int secure = strstr(op, "secure") != NULL || get2("arg.clear_released_memory", "arg.clear_released_memory_wrapper", 0) || get("r_secure", 0);
         struct aws_byte_buf b = mkbuf("to", 1, alloc), old = b;
         struct aws_byte_cursor from;
         if (!strcmp(op, "s_append_dynamic_aliased")) {
-            size_t off = get("g_aoff", 0);
-            from.len = get("from.len", 1);
+            size_t off = get2("g_aoff", "r_from_off", 0);
+            from.len = get2("from.len", "r_from_len", 1);
             if (off > old.len || from.len > old.len - off) { printf("input not constructible\n"); return 3; }
             from.ptr = old.buffer + off;
         } else from = mkcur("from", 100);
